@@ -296,7 +296,19 @@ fn index_class(i: usize, n: usize) -> &'static str {
     }
 }
 
+/// implementation-side totality oracle: verification, path expansion and every accessor return a verdict, an error
+/// or None for *every* input -- a panic is a property violation by itself (independent of the model)
 pub fn run_mt(op: &str, a: &[Arg], st: &mut Stats) -> Option<Out> {
+    match std::panic::catch_unwind(std::panic::AssertUnwindSafe(|| run_mt_inner(op, a, st))) {
+        Ok(r) => r,
+        Err(_) => {
+            st.hit(&format!("PANIC:{}", op));
+            Some(Out::ok("panic").with_oracle(false, format!("`{}` panicked; it must return a verdict, an error or None for every input", op)))
+        }
+    }
+}
+
+fn run_mt_inner(op: &str, a: &[Arg], st: &mut Stats) -> Option<Out> {
     Some(match (op, a) {
         ("verify", [h, ls, au, r]) => {
             let (h, ls, au, r) = (h.usize()?, parse_leafs(ls)?, au.digests()?, r.digest()?);
@@ -581,6 +593,34 @@ pub fn rand_leaves(rng: &mut Rng, n: usize) -> Vec<Digest> {
     }
 }
 
+/// the out-of-range boundary set of an n-leaf tree (n-1 is the last valid index)
+pub fn boundary_indices(n: usize) -> Vec<usize> {
+    let mut v = vec![n - 1, n, n + 1, 2 * n - 1, 2 * n, 2 * n + 1, (1 << 32) - 1, 1 << 32, 1 << 63, usize::MAX - 2 * n + 1,
+        usize::MAX - n, usize::MAX - n + 1, usize::MAX - 2, usize::MAX - 1, usize::MAX];
+    v.dedup();
+    v
+}
+
+/// every index-taking accessor, every boundary index, alone and mixed into an otherwise valid list at every
+/// position class (front, middle, back), for one tree
+pub fn boundary_cross(rng: &mut Rng, h: usize, leaves: &[Digest], out: &mut Vec<String>) {
+    let n = 1usize << h;
+    let ds = fmt_digests(leaves);
+    let f = |v: &[usize]| fmt_list_u64(&v.iter().map(|&x| x as u64).collect::<Vec<_>>());
+    let b = boundary_indices(n);
+    out.push(format!("mt leaf {} {}", ds, f(&b)));
+    out.push(format!("mt node {} {}", ds, f(&b)));
+    for &x in &b {
+        for opn in ["auth_structure", "proof", "indexed_leafs"] {
+            out.push(format!("mt {} {} {}", opn, ds, f(&[x])));
+            let mut is = gen_indices(rng, h, 5);
+            let pos = match rng.below(3) { 0 => 0, 1 => is.len(), _ => rng.below(is.len() as u64 + 1) as usize };
+            is.insert(pos, x);
+            out.push(format!("mt {} {} {}", opn, ds, f(&is)));
+        }
+    }
+}
+
 fn accessor_indices(rng: &mut Rng, n: usize) -> Vec<usize> {
     let c = [0, 1, n - 1, n, n + 1, 2 * n - 1, 2 * n, 2 * n + 1, usize::MAX, usize::MAX - 1, usize::MAX - 2, usize::MAX - n,
         usize::MAX - n + 1, usize::MAX - n + 2, usize::MAX - 2 * n, usize::MAX - 2 * n + 1, usize::MAX - 2 * n + 2, 1 << 63, 1 << 32, n / 2];
@@ -649,6 +689,11 @@ pub fn gen(rng: &mut Rng, thorough: bool, out: &mut Vec<String>) {
         emit_verify(out, h, &[(usize::MAX, d)], &[], &d);
     }
 
+    // ---- (3a) every index-taking accessor x every boundary index, for every tree size from the 1-leaf tree on
+    for h in 0..=(if thorough { 8 } else { 5 }) {
+        let leaves = rand_leaves(rng, 1usize << h);
+        boundary_cross(rng, h, &leaves, out);
+    }
     // ---- (3) honest trees: accessors with indices over all of usize, proofs for arbitrary index lists
     let trees = if thorough { 400 } else { 60 };
     for t in 0..trees {
@@ -661,10 +706,10 @@ pub fn gen(rng: &mut Rng, thorough: bool, out: &mut Vec<String>) {
         out.push(format!("mt node {} {}", ds, f(&accessor_indices(rng, n))));
         for _ in 0..3 {
             let mut is = gen_indices(rng, h, 10);
-            if rng.coin(1, 5) { // one out-of-range index
+            if rng.coin(1, 3) { // one out-of-range index from the boundary set
                 let pos = rng.below(is.len() as u64) as usize;
-                let cand = accessor_indices(rng, n);
-                is[pos] = *rng.pick(&cand);
+                let cand = boundary_indices(n);
+                is[pos] = *rng.pick(&cand[1..]);
             }
             let opn = *rng.pick(&["proof", "proof", "auth_structure", "indexed_leafs"]);
             out.push(format!("mt {} {} {}", opn, ds, f(&is)));
